@@ -1,15 +1,14 @@
 """Contracts for prosemirror/model/mark.py and the mark-related parts of schema.py (C14; used by C11, C13)."""
 import os
 
-from pyvc.api import cls, contract, lemma, spec_file
+from pyvc.api import contract, lemma, spec_file
+
+from . import classes  # noqa: F401
 
 FM = "prosemirror/model/mark.py"
 FS = "prosemirror/model/schema.py"
 spec_file(os.path.join(os.path.dirname(os.path.dirname(os.path.abspath(__file__))), "spec", "markspec.py"))
 
-cls("MarkType", FS, {"name": "str", "rank": "int", "excluded": "list[MarkType]"})
-cls("Mark", FM, {"type": "MarkType", "attrs": "val"})
-cls("NodeType", FS, {"name": "str", "mark_set": "opt[list[MarkType]]"})
 
 P = ["C14"]
 
